@@ -6,9 +6,19 @@ from props import c03
 
 GEN = ['grammar', 'elements', 'schemes']
 COQ_DEPS = ['Graph/Scheme_proofs.vo']
-STRESS = {'BensonGA': ['C1CCOCC1', 'c1ccccc1', 'Cc1ccccc1', 'C1COCCO1', 'CC=CC', 'CC=C(C)C', 'C/C=C\\C', 'CC(C)=C(C)C', 'CC(C)CC', 'C1CCCCC1', 'CCO',
+STRESS = {'BensonGA': ['C1CO1', 'C1CC1C', 'C1CCOCC1', 'c1ccccc1', 'Cc1ccccc1', 'C1COCCO1', 'CC=CC', 'CC=C(C)C', 'C/C=C\\C', 'CC(C)=C(C)C', 'CC(C)CC', 'C1CCCCC1', 'CCO',
                        'C1CC1', 'c1ccoc1', 'CC(C)(C)C', 'C=CC=C', 'CS', 'C[N+](C)(C)C'],
           'PPY': ['C1CCOCC1', 'c1ccccc1', 'CC=CC', 'CC=C(C)C', 'c1ccncc1', 'CC(C)=C(C)C', 'CS']}
+
+
+def fused6(smi):
+    """two six-membered rings sharing a bond: the decomposition depends on the ring order RDKit happens to give (C03's known finding)"""
+    from rdkit import Chem
+    m = Chem.MolFromSmiles(smi)
+    if m is None:
+        return False
+    six = [set(r) for r in m.GetRingInfo().AtomRings() if len(r) == 6]
+    return any(len(a & b) >= 2 for i, a in enumerate(six) for b in six[i + 1:])
 
 
 def run(ctx):
@@ -47,7 +57,7 @@ def run(ctx):
         for t in tiny:
             pairs += [(t, t), (t, 'CC'), ('CCO', t), (t, rng.choice(tiny))]
         for comp in pairs:
-            jobs.append({'lib': lib, 'smiles': list(comp) + ['.'.join(comp)], 'timeout': 300})
+            jobs.append({'lib': lib, 'smiles': list(comp) + ['.'.join(comp)], 'timeout': 300, 'combine': True})
             meta.append((lib, comp))
     res = vlib.run_impl_sharded('scheme', jobs, timeout=3000)
     hist = {'pairs': 0, 'triples': 0, 'self_pairs': 0, 'undecomposable_component': 0}
@@ -60,6 +70,10 @@ def run(ctx):
         outs = [x['impl'] for x in r['results']]
         parts, mix = outs[:-1], outs[-1]
         key = 'mix:%s:%s' % (lib, '.'.join(comp))
+        cm = r['results'][-1].get('impl_combine')
+        if cm is not None and cm != mix and not ('exc' in cm and 'exc' in mix) and not any(fused6(c_) for c_ in comp):
+            ctx.violate(key + '|combine', 'the mixture assembled as one molecule object (CombineMols) decomposes differently from the dotted SMILES',
+                        {'lib': lib, 'components': comp}, mix, cm)
         hist['triples' if len(comp) == 3 else 'self_pairs' if comp[0] == comp[1] else 'pairs'] += 1
         ctx.count(key, nontrivial=all('d' in p for p in parts))
         if any('exc' in p for p in parts):
